@@ -285,6 +285,7 @@ class HeapExec(symexec.Executor):
             if nm == 'old':
                 tmp = self.old_state.clone()
                 tmp.loc = dict(self.old_state.loc); tmp.loc.update(getattr(self, 'bound', {}))
+                if 'result' in st.loc: tmp.loc['result'] = st.loc['result']      # old(result.f): the pre-state field of the returned reference
                 return self.ev(n.args[0], tmp)
             if nm in ('forall', 'exists'):
                 lam = n.args[0]
@@ -346,7 +347,9 @@ class HeapExec(symexec.Executor):
                 # constrained only by the contract of __init__ (proved separately for this number of arguments)
                 args = [self.ev(a, st) for a in n.args]
                 r = self.fresh('new_' + nm)
-                self.assumptions.append(ir.implies(st.pc, ir.band_(ir.ne(r, NONE), *[ir.ne(r, x) for x in self.known_refs])))
+                am = self.fmap(st, 'f:#alloc', 1)       # ghost: the set of objects that exist (o.__alloc in contracts)
+                self.assumptions.append(ir.implies(st.pc, ir.band_(ir.ne(r, NONE), ir.eq(am.read(r), 0), *[ir.ne(r, x) for x in self.known_refs])))
+                st.heap[('M', 'f:#alloc')] = am.write((r,), 1); self.written.add('f:#alloc')
                 self.known_refs.append(r)
                 self.apply_contract(self.contracts['new:%s/%d' % (nm, len(n.args))], r, args, st, n)
                 return r
